@@ -508,6 +508,8 @@ def menger(rc: RuleCtx, rule_range: Optional[str], rule_crit: Optional[str]):
     penv[L] = Vec(list(head.items) + [_blk], "list")
     fr2.block(post, penv, TRUE)
     rets = fr2.returns
+    from .common import account_returns
+    account_returns(fi)             # (the returned value is read below: the arg-max over the scanned positions of the curvature vector)
     pad_ok = False
     ret_ok = False
     pad = None
